@@ -531,6 +531,38 @@ protected:
     isReferenceInCDATA(XalanDOMChar     ch) const;
 
     /**
+     * Whether a parser reads a character back only from a character
+     * reference (CR, control characters; XML 1.1: LSEP, U+007F to U+009F).
+     * @param ch the character.
+     */
+    bool
+    isReferenceOnly(XalanDOMChar    ch) const;
+
+    /**
+     * Write the data of a comment or of a processing instruction;
+     * a character that cannot be written there is an error.
+     * @param theData the data.
+     * @param theLength the length of the data.
+     */
+    void
+    accumMarkupData(
+            const XalanDOMChar*     theData,
+            size_type               theLength);
+
+    void
+    accumMarkupRun(
+            const XalanDOMChar*     theData,
+            size_type               theLength);
+
+    /**
+     * Throw an exception for a character that is not in the
+     * output encoding, where no character reference can be written.
+     * @param ch the character.
+     */
+    void
+    throwUnrepresentableCharacterException(XalanUnicodeChar     ch);
+
+    /**
      * Write a number into the buffer as an entity
      * reference.
      * @param theNumber the number to write.
